@@ -159,7 +159,9 @@ func c02ModelMany(or *Oracle, p *c02Prog, masks []uint) []c02ModelRes {
 				dead[k] = true
 				continue
 			}
-			if field && c02StripFlags(ans[n*per+2]) != a {
+			// the field-blind run must give the same signature and must not leave a type undetermined that
+			// the field name alone would fix (e.g. (fun r -> r.RX) passed for an unused generic argument)
+			if field && (c02StripFlags(ans[n*per+2]) != a || strings.HasPrefix(ans[n*per+2], "AMBIG ") != strings.HasPrefix(ans[n*per], "AMBIG ")) {
 				res[k].inDomain = false
 			}
 			sg := c02SigOfAnswer(f.Name, ans[n*per+1])
@@ -799,10 +801,10 @@ func runC02(c *Ctx) {
 		"parameters before the determining use; shadowing lambda parameters) with the principal type known by construction; every subset of <= 6 annotations erased; " +
 		"non-trivial = at least one unannotated parameter or a generic result; distinct by source text of the fully annotated program"
 	c02CheckFoi(c)
-	nRand := c.Pick(110, 1800)
-	nShape := c.Pick(45, 800)
-	nFam := c.Pick(15, 250) // per family (twobox, clamp, shadow)
-	nHazard := c.Pick(4, 20)
+	nRand := c.Pick(110, 6000)
+	nShape := c.Pick(45, 2800)
+	nFam := c.Pick(15, 800) // per family (twobox, clamp, shadow)
+	nHazard := c.Pick(4, 40)
 	c02MaxSites = c.Pick(4, 6) // quick: <= 2^4 variants per program, thorough: <= 2^6
 	var progs []*c02Prog
 	if c.Replay != "" {
